@@ -442,7 +442,14 @@ def optree_texts(quick, seed):
                     '(' + binary(o, a, b) + ')' + po]
         for po2 in POSTOPS:
             out += [a + po + po2, '(' + a + po + ')' + po2]
-    # every atom under every operator
+    # every atom under every operator, bare and parenthesised
+    for at in ATOMS + ['-1.5', '-1n', '-1e3', '+1', '- a', 'not a',
+                       '<int64>a', 'a if b else c', 'exists a']:
+        for o in BINOPS:
+            out += [binary(o, '(' + at + ')', 'b'),
+                    binary(o, 'a', '(' + at + ')')]
+        for p1 in PREOPS:
+            out.append(prefix(p1, '(' + at + ')'))
     for at in ATOMS:
         for o in BINOPS_SMALL:
             out += [binary(o, at, 'b'), binary(o, 'a', at)]
